@@ -25,6 +25,10 @@ pub fn rule_sets() -> Vec<(&'static str, Vec<(&'static str, &'static str, &'stat
 }
 
 pub fn mk_rules(i: usize) -> Vec<Rewrite<Sym>> {
+    mk_rules_n::<()>(i)
+}
+
+pub fn mk_rules_n<N: Analysis<Sym> + 'static>(i: usize) -> Vec<Rewrite<Sym, N>> {
     rule_sets()[i].1.iter().map(|(n, a, b)| Rewrite::new(n, a, b)).collect()
 }
 
